@@ -6,6 +6,8 @@ Each topic lives in its own module `Oracle.Cnn` with `St`, `init`, `step`.
 import Oracle.C01
 import Oracle.C01Lower
 import Oracle.C01Ssa
+import Oracle.C01Front
+import Oracle.C01FrontX
 import Oracle.C02
 import Oracle.C03
 import Oracle.C04
@@ -74,6 +76,8 @@ def dispatch (st : State) (line : String) : State × String :=
   | "c20" :: args => let (s, o) := C20.step st.c20 args; ({ st with c20 := s }, o)
   | "c01low" :: args => (st, (C01Lower.step () args).2)
   | "c01ssa" :: args => (st, (C01Ssa.step () args).2)
+  | "c01front" :: args => (st, (C01Front.step () args).2)
+  | "c01frontx" :: args => (st, (C01FrontX.step () args).2)
   | ["ping"] => (st, "pong")
   | _ => (st, "bad-op")
 
